@@ -340,7 +340,12 @@ class BDDNonTerminalNode(BDDNode):
                 if succ.value:
                     repr.append('%s%s' % (neg, self.var))
             else:
-                repr.append('%s%s & %s' % (neg, self.var, succ))
+                succ_str = str(succ)
+                if succ_str.startswith('('):
+                    # a disjunction must be parenthesised under '&'
+                    succ_str = '(%s)' % succ_str
+
+                repr.append('%s%s & %s' % (neg, self.var, succ_str))
 
         if len(repr) == 2:
             return '(%s) | (%s)' % (repr[0], repr[1])
